@@ -25,11 +25,18 @@ Containment: every path handed to twisted lives under one mkdtemp() top and ALL 
 crash-free phases and the reboots) runs inside a FaultFS, which refuses — without executing — any
 mutating filesystem call outside that top and reports it as `filesystem-call-outside-scratch`.
 
+OSError part: the same calls of the rotating operations are also made to FAIL once with OSError(EIO)
+in a process that carries on (a torn data write keeps its prefix).  Whether the operation raises or
+swallows the error, the directory must still hold a suffix of W (+ a prefix of the write that
+raised; all of it without retention); the same LogFile object then keeps logging (writes that raise
+count as not written), and finally a fresh LogFile is opened on the directory as after a crash.
+
 Guards: the oracle never predicts *when* a rotation happens (`LogFile.size` counts characters, not
 bytes, for text — a later rotation is allowed by "at least the rotation length"); explicit
 `rotate()` calls are exempt from the size requirement; after a crash the retention count is only
 an upper bound; rotateLength None / explicit rotation only is included.
 """
+import errno
 import os
 import shutil
 import tempfile
@@ -52,7 +59,8 @@ ASSUMPTIONS = [
 SHARDS = {"quick": 4, "thorough": 16}
 FLOORS = {"histories": 100, "ops_checked": 1000, "rotations_observed": 200, "auto_rotation_size_checks": 100,
           "retention_checks": 50, "multibyte_text_writes": 50, "crash_runs": 300, "crash_inside_rename_loop": 30,
-          "post_crash_rotations": 100, "reopen_ops": 20, "removals_by_retention": 20}
+          "post_crash_rotations": 100, "reopen_ops": 20, "removals_by_retention": 20,
+          "oserror_runs": 200, "oserror_inside_rename_loop": 30, "oserror_propagated_to_caller": 100, "writes_accepted_after_oserror": 100}
 READY = True
 
 TEXTS = ["é", "€uro", "😀", "naïve café\n", "日本語ログ", "plain ascii line\n"]
@@ -193,14 +201,16 @@ class World:
 
         return LogFile(self.h["name"], self.dir, rotateLength=self.L, maxRotatedFiles=self.r)
 
-    def play(self, arm=None, check=True):
-        """Run the history; returns the FaultFS.  With `arm`, dies at that point."""
+    def play(self, arm=None, check=True, oserror=False):
+        """Run the history; returns the FaultFS.  With `arm`, dies at that point — or, with
+        `oserror`, that call fails once with OSError(EIO) in a process that carries on."""
         ctx = self.ctx
         self.quiet = not check
         restore_tree(self.dir, self.h["initial"])
         fs = FaultFS(self.root, on_call=self.on_call)
         if arm is not None:
-            fs.arm(*arm)
+            fs.arm(*arm, raises=(lambda: OSError(errno.EIO, "injected I/O error")) if oserror else None)
+        fault_pending = oserror
         self.W_before = self.W
         with fs:
             try:
@@ -210,22 +220,33 @@ class World:
                     self.rotated_in_op = False
                     a = fs.n
                     self.W_before = self.W
-                    if op[0] == "w":
-                        lf.write(op[1])
-                        self.W += enc(op[1])
-                        if check and isinstance(op[1], str) and len(enc(op[1])) != len(op[1]):
-                            ctx.count("multibyte_text_writes")
-                    elif op[0] == "flush":
-                        lf.flush()
-                    elif op[0] == "reopen":
-                        lf.reopen()
-                        if check:
-                            ctx.count("reopen_ops")
-                    elif op[0] == "new":
-                        lf.close()
-                        lf = self.make()
-                    elif op[0] == "rotate":
-                        lf.rotate()
+                    raised = None
+                    try:
+                        if op[0] == "w":
+                            lf.write(op[1])
+                            self.W += enc(op[1])
+                            if check and isinstance(op[1], str) and len(enc(op[1])) != len(op[1]):
+                                ctx.count("multibyte_text_writes")
+                        elif op[0] == "flush":
+                            lf.flush()
+                        elif op[0] == "reopen":
+                            lf.reopen()
+                            if check:
+                                ctx.count("reopen_ops")
+                        elif op[0] == "new":
+                            lf.close()
+                            lf = self.make()
+                        elif op[0] == "rotate":
+                            lf.rotate()
+                    except Crash:
+                        raise
+                    except Exception as e:
+                        if not (fault_pending and fs.fired):
+                            raise
+                        raised = e
+                    if fault_pending and fs.fired:
+                        self.after_oserror(lf, op, raised, fs.crash_call)
+                        return fs
                     self.op_ranges.append((j, a, fs.n, self.rotated_in_op))
                     if check:
                         self.check_after_op()
@@ -234,6 +255,53 @@ class World:
             except Crash:
                 pass
         return fs
+
+    # ---- after an injected OSError (the process carries on) ------------------------------------------
+    def settle(self, d):
+        """The directory must be a suffix of W + some prefix of the write `d` that raised (all of it
+        without retention); fixes self.W to that.  -> bool"""
+        rot, cur = self.disk()
+        concat = b"".join(c for _, c in rot) + (cur or b"")
+        for p in range(len(d) + 1):
+            x = self.W + d[:p]
+            if concat == x or (self.r is not None and x.endswith(concat)):
+                self.W = x
+                return True
+        return False
+
+    def after_oserror(self, lf, op, raised, point):
+        ctx = self.ctx
+        ctx.count("oserror_state_checks")
+        if raised is not None:
+            ctx.count("oserror_propagated_to_caller")
+            ctx.seen("oserror_surfaced_as", type(raised).__name__)
+        wit = {"oserror_at": point, "operation_raised": repr(raised)}
+        if not self.settle(enc(op[1]) if (op[0] == "w" and raised is not None) else b""):
+            ctx.violation("oserror-in-rotation-loses-or-reorders", "after one filesystem call of a rotating operation failed with OSError the retained files are not a suffix of what was written (all of it without retention)", self.witness(wit))
+            return
+        for i in range(3):  # the same process keeps logging
+            d = b"(same-process-%d:" % i + b",".join(b"%d" % n for n in range((self.L or 7) // 2 + 2)) + b")"
+            self.cur_op = ("w-after-oserror", i, d)
+            try:
+                lf.write(d)
+            except Crash:
+                raise
+            except Exception:
+                ctx.count("writes_refused_after_oserror")
+                ok = self.settle(d)
+            else:
+                self.W += d
+                ctx.count("writes_accepted_after_oserror")
+                ok = self.settle(b"")
+            if not ok:
+                ctx.violation("write-after-oserror-loses-or-reorders", "logging on in the same process after the failed rotation lost, duplicated or reordered retained data", self.witness(wit))
+                return
+        try:
+            lf.close()
+        except Exception:
+            pass
+        rot, cur = self.disk()
+        self.reboot_and_write(point, b"".join(c for _, c in rot) + (cur or b""), tag="oserror")
 
     # ---- after a crash ---------------------------------------------------------------------------------
     def check_after_crash(self, point):
@@ -262,7 +330,7 @@ class World:
         with FaultFS(self.root):  # unarmed: containment guard
             self.reboot_and_write(point, concat)
 
-    def reboot_and_write(self, point, base):
+    def reboot_and_write(self, point, base, tag="crash"):
         ctx = self.ctx
         lf = self.make()
         extra = b""
@@ -283,11 +351,11 @@ class World:
                     ctx.count("post_crash_rotations")
                 good = (base + extra == c2) if self.r is None else (base + extra).endswith(c2)
                 if not good:
-                    ctx.violation("post-crash-rotation-loses-or-reorders", "writing/rotating on the left-over directory after the crash lost, duplicated or reordered retained data",
+                    ctx.violation("post-%s-rotation-loses-or-reorders" % tag, "writing/rotating with a fresh LogFile on the left-over directory lost, duplicated or reordered retained data",
                                   self.witness({"crash_point": point, "retained_after_crash_len": len(base), "written_after_reboot": extra}))
                     break
                 if self.r is not None and len(rot2) > max(self.r, before):
-                    ctx.violation("post-crash-retention-exceeded", "rotated files keep exceeding maxRotatedFiles after the crash", self.witness({"crash_point": point}))
+                    ctx.violation("post-%s-retention-exceeded" % tag, "rotated files keep exceeding maxRotatedFiles on the left-over directory", self.witness({"crash_point": point}))
                     break
         finally:
             lf.close()
@@ -330,6 +398,22 @@ def run_history(ctx, hid, crash):
                 ctx.evaluated()
                 ctx.distinct(("crash", hid, j, k, plen))
                 w2.check_after_crash((j, k, kind, detail, plen))
+            # the same calls fail once with OSError instead, and the process carries on
+            for k, kind, detail, pend in count.log:
+                if not a <= k < b:
+                    continue
+                for plen in ([0, pend // 2] if (kind == "write" and pend > 1) else [0]):
+                    w3 = World(ctx, h, hid, root)
+                    fs = w3.play(arm=(k, plen), check=False, oserror=True)
+                    if not fs.fired:
+                        ctx.inconclusive("C53: OSError point not reached on replay")
+                        continue
+                    ctx.count("oserror_runs")
+                    ctx.count("oserror_at_" + kind)
+                    if kind in ("rename", "remove") and detail[0] != w3.path:
+                        ctx.count("oserror_inside_rename_loop")
+                    ctx.evaluated()
+                    ctx.distinct(("oserror", hid, j, k, plen))
     finally:
         shutil.rmtree(root, ignore_errors=True)
         report_escapes(ctx, hid)
@@ -338,8 +422,8 @@ def run_history(ctx, hid, crash):
 def run(ctx):
     if not selftest_or_inconclusive(ctx):
         return
-    n_crash = ctx.size(250, 10000)
-    for hid in ctx.cases(2000, 100000):
+    n_crash = ctx.size(180, 8000)
+    for hid in ctx.cases(1500, 100000):
         run_history(ctx, hid, crash=hid < n_crash)
 
 
